@@ -48,7 +48,8 @@ ASSUMPTIONS = [
 RULE = ('structured random programs (straight-line blocks, forward bne over blocks, down-counter loops nested <= 2, dense RAW '
         'reuse of the last 3 destinations, load-use, store->load same/neighbouring word, pointers through memory, far-base '
         'addressing with negative offsets, csrr/csrw in loops, register-file dump epilogue) + far-branch family (taken bne with '
-        '|offset| 2044..4096 bytes both directions over filler) + directed boundary-immediate programs, rejection-sampled with the ISA '
+        '|offset| 2044..4096 bytes both directions over filler) + false-producer family (sw / bne whose inst[11:7] immediate bits equal a source register '
+        'of the next 1-3 instructions) + directed boundary-immediate programs, rejection-sampled with the ISA '
         'oracle; x timing configs (src/sink delay 0-5, stall prob {0,.3,.6}, latency 1-5) x {FL,CL,RTL}; '
         'non-trivial = program stores and takes a backward branch or runs >= 60 instructions; distinct = (program text, inputs, timing, level)')
 
@@ -202,6 +203,13 @@ DIRECTED = [
    "addi x12, x0, 31\naddi x13, x0, 32\naddi x14, x0, 33\nsll x15, x5, x12\nsll x16, x5, x13\nsll x17, x5, x14\n"
    "srl x18, x5, x12\nsrl x19, x5, x13\nsrl x20, x5, x14\nsrl x21, x10, x12\nsll x22, x11, x14\n"
    + ''.join(f"csrw proc2mngr, x{r}\n" for r in range(5, 23)), [0x2040, 0x80000003]),
+  # false producers: sw / not-taken bne whose inst[11:7] immediate bits equal the register read two slots later
+  ("csrr x1, mngr2proc\ncsrr x2, mngr2proc\ncsrr x4, mngr2proc\ncsrr x8, mngr2proc\ncsrr x29, mngr2proc\nnop\nnop\nnop\n"
+   "sw x2, 4(x1)\naddi x6, x0, 1\nadd x5, x2, x4\ncsrw proc2mngr, x5\nnop\nnop\nnop\n"
+   "bne x2, x2, 8\naddi x6, x6, 1\nadd x9, x2, x8\ncsrw proc2mngr, x9\nnop\nnop\nnop\n"
+   "sw x2, 8(x1)\naddi x6, x6, 1\nsw x8, 12(x1)\nlw x10, 12(x1)\ncsrw proc2mngr, x10\nnop\nnop\nnop\n"
+   "bne x2, x2, -4\nnop\nsrl x11, x2, x29\nsll x12, x29, x2\ncsrw proc2mngr, x11\ncsrw proc2mngr, x12\nnop\nnop\n"
+   "sw x0, 8(x1)\nnop\nbne x2, x8, T\naddi x6, x6, 64\nT:\ncsrw proc2mngr, x6\n", [0x2000, 7, 100, 50, 3]),
   # pointer chasing: each load feeds the next address
   ("csrr x1, mngr2proc\nsw x1, 0(x1)\nlw x2, 0(x1)\nlw x2, 0(x2)\nlw x2, 0(x2)\naddi x2, x2, 8\nsw x2, 0(x1)\nlw x1, 0(x1)\nsw x1, 0(x1)\nlw x5, 0(x1)\n"
    "csrw proc2mngr, x5\ncsrw proc2mngr, x2\n", [0x2020]),
@@ -303,12 +311,15 @@ def check_assembled(ck, pr, enc_replies):
     elif e != str(a):
       ck.disagreement('Model.encode≈tinyrv0_encoding.assemble', case, e, str(a))
 
-def check_programs(ck, nprog, ncfg, sizes, fuel, nfar=0, far_ncfg=1):
+def check_programs(ck, nprog, ncfg, sizes, fuel, nfar=0, far_ncfg=1, nalias=0):
   rng = ck.rng
   progs = [directed_program(t, i, rng) for t, i in DIRECTED]
   for _ in range(nfar):                              # far-branch family: taken bne with |offset| around / above 2048 bytes
-    p = u.gen_far_program(rng, fuel); p['far'] = True
+    p = u.gen_far_program(rng, fuel); p['tight_cfgs'] = far_ncfg
     for d in p['hops']: ck.hist('far_branch_offset', d if abs(d) >= 2040 else 'other')
+    progs.append(p)
+  for _ in range(nalias):                            # false-producer family (sw / bne immediate bits aliasing a source register)
+    p = u.gen_program(rng, rng.choice([90, 130, 170]), fuel, family='alias'); p['tight_cfgs'] = 2
     progs.append(p)
   for _ in range(nprog):
     progs.append(u.gen_program(rng, rng.choice(sizes), fuel))
@@ -323,7 +334,7 @@ def check_programs(ck, nprog, ncfg, sizes, fuel, nfar=0, far_ncfg=1):
   enc = ck.drv('rv').batch(enc_lines)
   for p, rep, (a, b) in zip(progs, replies, spans):
     if p['insts']: check_assembled(ck, p, enc[a:b])
-    if p.get('far'): cfgs = [rand_cfg(rng, tight=(k == 0)) for k in range(far_ncfg)]
+    if p.get('tight_cfgs'): cfgs = [rand_cfg(rng, tight=(k == 0)) for k in range(p['tight_cfgs'])]
     else: cfgs = [rand_cfg(rng, tight=(k == 0 and rng.random() < 0.7)) for k in range(ncfg)]
     eval_program(ck, p, rep, cfgs, fuel)
     if len(ck.violations) > 20: break
@@ -372,8 +383,8 @@ def run(ck):
   check_encoding(ck, 400 if quick else 6000)
   exhaustive_decode(ck, quick)
   check_cksum(ck, 150 if quick else 3000)
-  if quick: check_programs(ck, 32, 2, [25, 50, 80, 120], 4000, nfar=3, far_ncfg=1)
-  else: check_programs(ck, 420, 2, [20, 40, 60, 90, 140, 200], 6000, nfar=40, far_ncfg=2)
+  if quick: check_programs(ck, 30, 2, [25, 50, 80, 120], 4000, nfar=3, far_ncfg=1, nalias=4)
+  else: check_programs(ck, 400, 2, [20, 40, 60, 90, 140, 200], 6000, nfar=40, far_ncfg=2, nalias=40)
 
 def replay(ck, data):
   c = data['case']
